@@ -125,7 +125,7 @@ func e2eInjectWorker(args []string) error {
 		_ = os.WriteFile(p.Trace+".summary", b, 0o644)
 	}()
 
-	cfg := agent.Cfg{N4Addr: p.N4Addr, Datapath: "bess", LogLevel: "error", ReadTimeout: 120, RespTimeout: "2s", MaxReqRetries: 5, EndMarker: true}
+	cfg := agent.Cfg{N4Addr: p.N4Addr, Datapath: "bess", LogLevel: "warn", ReadTimeout: 120, RespTimeout: "2s", MaxReqRetries: 5, EndMarker: true}
 	if p.Alloc {
 		cfg.UEIPAlloc, cfg.UEPool = true, "10.250.0.0/24"
 	}
